@@ -508,6 +508,15 @@ class MetricsTypeIO(GraphSONTypeIO):
         return reader.deserialize(value)
 
 
+def _hashable(value):
+    """Set members and map keys must be hashable: a blob (bytearray) becomes bytes, also inside a tuple."""
+    if isinstance(value, bytearray):
+        return bytes(value)
+    if type(value) is tuple:
+        return tuple(_hashable(v) for v in value)
+    return value
+
+
 class JsonMapTypeIO(GraphSONTypeIO):
     """In GraphSON2, dict are simply serialized as json map"""
 
@@ -554,7 +563,7 @@ class MapTypeIO(GraphSONTypeIO):
             itertools.islice(a, 0, None, 2),
             itertools.islice(b, 1, None, 2)
         ):
-            out[reader.deserialize(key)] = reader.deserialize(val)
+            out[_hashable(reader.deserialize(key))] = reader.deserialize(val)
         return out
 
 
@@ -603,7 +612,7 @@ class SetTypeIO(GraphSONTypeIO):
 
     @classmethod
     def deserialize(cls, value, reader=None):
-        lst = [reader.deserialize(obj) for obj in value]
+        lst = [_hashable(reader.deserialize(obj)) for obj in value]
 
         s = set(lst)
         if len(s) != len(lst):
